@@ -394,7 +394,7 @@ class StmtMixin:
             ghost['_i'] = SV(INT, z3.IntVal(0))
         # 1. invariant on entry
         for j, inv in enumerate(spec.invariant):
-            t = self.eval_clause(inv, extra=ghost)
+            t = self.eval_clause(inv, extra=ghost, polarity=1)
             self.prove(f'{qn}::inv-entry(loop {k})[{j}]', t, line=s.lineno)
         # 2. havoc
         names = assigned_names(s.body + ([s.target] if is_for else []))
@@ -443,7 +443,7 @@ class StmtMixin:
             if iterctx is not None:
                 g2['_i'] = SV(INT, ghost['_i'].t + 1)
             for j, inv in enumerate(spec.invariant):
-                t = self.eval_clause(inv, extra=g2)
+                t = self.eval_clause(inv, extra=g2, polarity=1)
                 self.prove(f'{qn}::inv-step(loop {k})[{j}]', t, line=s.lineno)
             self.check_loop_frame(spec, head_heap, head_next, qn, k, s.lineno)
             raise Infeasible()   # the arbitrary iteration ends here
